@@ -41,9 +41,11 @@ def strategy_(g):
         conds=(cond,),
         noise=(nz, nz),
         pert=(0.3, 0.3),
-        features=("parallel", "reversed", "permute", "ids", "multifixed", "quat-signs", "pure-translation-steps"),
+        features=("parallel", "reversed", "permute", "ids", "multifixed", "quat-signs", "pure-translation-steps", "near-identity-orientations", "info-scale", "flag-types"),
     )
     case["tol"] = 10.0 ** g.rnd.uniform(-10, -3)
+    # the weights of some edges are re-assigned (edge.information = new matrix) after the graph was built and evaluated once
+    case["reweight"] = [[g.rnd.randrange(10**6), g.choice([0.01, 0.1, 10.0, 100.0])] for _ in range(g.rnd.randint(1, 3))] if g.choice([False, False, True]) else []
     # staged optimisation on ONE Graph object: some free vertices are held for a first (single-iteration) run and released afterwards
     case["staged"] = []
     if g.choice([False, False, False, True]):
@@ -86,11 +88,20 @@ def check(case, ctx):
             # the partial step left the calibrated neighbourhood (nothing is claimed about what follows)
             ctx.event("discarded:staged-step-increased-chi2")
             return
+    if case.get("reweight"):
+        # a doubtful constraint is down-weighted (or a trusted one up-weighted) by assignment on the live, already evaluated graph
+        ctx.event("information-reassigned-on-live-graph")
+        g.calc_chi2()
+        for e in g._edges:
+            e.calc_chi2_gradient_hessian()
+        for sel, c in case["reweight"]:
+            e = g._edges[sel % len(g._edges)]
+            e.information = np.array(e.information, dtype=float) * c
     chi0_ref = RG.chi2(g)
     ret, _ = GC.optimize_quiet(g, tol=tol, max_iter=50, fix_first_pose=ff, verbose=False)
     if not GC.all_finite(g):
         return ctx.fail("diverged-inside-neighbourhood", "non-finite poses after optimize() inside the calibrated neighbourhood")
-    maxinfo = max(float(np.abs(np.array(e["info"])).max()) for e in case["edges"])
+    maxinfo = max(float(np.abs(np.asarray(e.information, dtype=float)).max()) for e in g._edges)
     floor_c = 1e-12 * maxinfo * (1 + S_) ** 2
     ctx.event("iterations:%s" % (ret.num_iterations if ret.num_iterations is not None and ret.num_iterations < 10 else ">=10"))
     ctx.event("converged:%s" % bool(ret.converged))
